@@ -85,7 +85,50 @@ def sweep_shuffled(tier, seed):
         yield dict(n=n, cohort=cohort, start=start, k=3, seed=seed)
 
 
-CHECKERS = {'get': (check_get, sweep_get), 'shuffled': (check_shuffled, sweep_shuffled)}
+def child(inp):
+  fd = mkfd(inp['n'])
+  out = []
+  for r in inp['rounds']:
+    s = cs.UniformGetClientSampler(fd, inp['cohort'], inp['seed'], start_round_num=r)
+    out.append(triple(s.sample()))
+  a = cs.UniformShuffledClientSampler(fd.shuffled_clients(buffer_size=4, seed=inp['seed']), inp['cohort'])
+  out.append([triple(a.sample()) for _ in range(2)])
+  return repr(out)
+
+
+def check_restart(inp):
+  """A restart is a new process: str / bytes hashing is salted per process (PYTHONHASHSEED)."""
+  import json
+  import os
+  import subprocess
+  got = {}
+  for hs in inp['hashseeds']:
+    env = dict(os.environ, PYTHONHASHSEED=str(hs))
+    pr = subprocess.run([sys.executable, os.path.abspath(__file__), '--child', json.dumps(inp)],
+                        capture_output=True, text=True, env=env, cwd='/', timeout=110)
+    lines = [l for l in pr.stdout.splitlines() if l.startswith('CHILD ')]
+    if pr.returncode != 0 or not lines:
+      return f'the sampler raised in a fresh process (PYTHONHASHSEED={hs}): {pr.stderr[-600:]}'
+    got[hs] = lines[-1]
+  first = inp['hashseeds'][0]
+  for hs in inp['hashseeds'][1:]:
+    if got[hs] != got[first]:
+      return (f'the same sampler (seed {inp["seed"]}, rounds {inp["rounds"]}) restarted in a new process returns different '
+              f'clients: PYTHONHASHSEED={first}: {got[first][:200]} ... vs PYTHONHASHSEED={hs}: {got[hs][:200]}')
+
+
+def sweep_restart(tier, seed):
+  yield dict(n=8, cohort=3, seed=seed + 1, rounds=[0, 1, 4], hashseeds=[1, 2, 3])
+  if tier != 'quick':
+    yield dict(n=5, cohort=5, seed=seed, rounds=[2], hashseeds=[0, 11, 12, 13])
+
+
+CHECKERS = {'get': (check_get, sweep_get), 'shuffled': (check_shuffled, sweep_shuffled),
+            'restart': (check_restart, sweep_restart)}
 
 if __name__ == '__main__':
+  if len(sys.argv) > 2 and sys.argv[1] == '--child':
+    import json
+    print('CHILD ' + child(json.loads(sys.argv[2])))
+    sys.exit(0)
   sys.exit(common.main(CHECKERS))
